@@ -473,8 +473,11 @@ def check(P, R):
     writes = [c for st in lp.body for c in walk_shallow(st) if isinstance(c, ast.Call) and call_attr(c) == 'write' and c.args and src(c.args[0]) == part]
     ok = len(parses) == 1 and len(writes) == 1
     if ok:
-        t = enclosing(parses[0], ast.If)
-        ok = t is not None and 'markup' in src(t.test) and compare_parts(t.test) and compare_parts(t.test)[1] is ast.IsNot
+        # the only condition on feeding the scanner is that there is one (`markup is not None`, directly or through a flag)
+        recv = parses[0].func.value
+        pn = br.cfg.node_of_stmt(parses[0])[0]
+        atoms = T.guard_atoms(br, pn, within=lp)
+        ok = isinstance(recv, ast.Name) and T.holds_not_none(atoms, recv.id) and len(atoms) == 1
     R.ob('C06.f', br, parses[0] if parses else lp, ok, text=f'markup.parse({part}) once per part, in the iteration that buffers it', detail='' if ok else
          'the scanner is not fed every part exactly once in arrival order')
 
